@@ -842,20 +842,16 @@ class Optimizer(Logger, Citable):
 
         result_dict = {}
 
-        sorted_weights = weights.argsort()
+        # Sample index of every gathered entry, in the order of the gather
+        all_index = np.array(mpi.allreduce(
+            list(range(rank, len_samples, num_procs)), op='SUM'), dtype=int)
+        restore = all_index.argsort()
 
         for param, (trace, w) in derived_param.items():
 
-            # I cant remember why this works
-            all_trace = np.array(mpi.allreduce(trace, op='SUM'))
-            # I cant remember why this works
-            all_weight = np.array(mpi.allreduce(w, op='SUM'))
-
-            all_weight_sort = all_weight.argsort()
-
-            # Sort them into the right order
-            all_weight[sorted_weights] = all_weight[all_weight_sort]
-            all_trace[sorted_weights] = all_trace[all_weight_sort]
+            # Gathered rank by rank, then put back into sample order
+            all_trace = np.array(mpi.allreduce(trace, op='SUM'))[restore]
+            all_weight = np.array(mpi.allreduce(w, op='SUM'))[restore]
 
             q_16, q_50, q_84 = \
                 quantile_corner(np.array(all_trace), [0.16, 0.5, 0.84],
